@@ -158,7 +158,8 @@ class SurfaceEvolver:
                 ids.append(int(re.search(r"\d+", lines[i]).group()))
                 id1.append(int(lines[i].split()[1]))
                 id2.append(int(lines[i].split()[2]))
-                forces.append(float(lines[i].split()[4]) if lines[i].split()[3] == "density" else 1)
+                tokens = lines[i].split()
+                forces.append(float(tokens[4]) if len(tokens) > 4 and tokens[3] == "density" else 1)
                 # vals.append(float(lines[i][lines[i].find("density"):].split(" ")[1]))
         edges['id'] = ids
         edges['id1'] = id1
